@@ -94,6 +94,10 @@ func genWorld(rng *core.Rng, i int, inEnvelope bool) world.WorldSpec {
 	case 0:
 		s.BAC = true
 		s.Password = core.Pick(rng, []string{"mrz", "mrzi", "dg1"})
+		if rng.Chance(1, 3) {
+			// EF.CardAccess advertises only PACE variants the terminal does not implement: BAC fallback needed
+			s.PaceJunk = rng.Range(1, 2)
+		}
 	case 1:
 		s.BAC = true
 		s.PACE = []world.PaceSpec{{Suite: suite, ParamID: param}}
@@ -131,6 +135,10 @@ func genWorld(rng *core.Rng, i int, inEnvelope bool) world.WorldSpec {
 		case 0: // legacy: no info, suite inferred
 		case 1:
 			ca.Suites = []string{core.Pick(rng, allSuites)}
+			if rng.Chance(1, 3) {
+				// two protocols advertised, the preferred one not first
+				ca.Suites = []string{chip.TDES, core.Pick(rng, aesSuites)}
+			}
 		case 2:
 			ca.Suites = []string{core.Pick(rng, allSuites)}
 			id := int64(rng.Range(1, 300))
